@@ -144,7 +144,9 @@ def membersPosition (ids : List Nat) : Except String (List Nat) :=
   if ids.isEmpty then .error "ValueError: zero-size array to reduction operation maximum"
   else .ok (posLoop (List.replicate (maxL ids + 1) 0) ids)
 
-/-- `GroupPopulation.ordered_members_map` -/
+/-- `GroupPopulation.ordered_members_map`. `numpy.argsort` is not a stable sort; the model uses a
+stable one and `C10_members_map_irrelevant` shows that `value_nth_person` / `value_from_person`
+give the same result with any other permutation that sorts the persons by group. -/
 def orderedMap (ids : List Nat) : List Nat := argsortN ids
 
 /-! ## Aggregations persons -> group -/
@@ -172,16 +174,20 @@ def nbPersons (p : Pop) (role : Option Role) : Except String (List Int) :=
   | some r => groupSum p ((p.hasRole r).map b2i) none
   | none => .ok (bincount p.ids p.n)
 
-/-- `GroupPopulation.value_nth_person(n, array, default)` -/
-def valueNth {α} (p : Pop) (k : Nat) (a : List α) (d : α) : Except String (List α) :=
+/-- `GroupPopulation.value_nth_person(n, array, default)`, the members map being given -/
+def valueNthWith {α} (p : Pop) (mp : List Nat) (k : Nat) (a : List α) (d : α) :
+    Except String (List α) :=
   if a.length ≠ p.ms.length then .error "InvalidArraySizeError" else
   match membersPosition p.ids with
   | .error e => .error e
   | .ok pos =>
     let nb := bincount p.ids p.n
-    let mp := orderedMap p.ids
     maskedAssign (List.replicate p.n d) (nb.map fun c => decide ((k : Int) < c))
       (maskSel ((takeD pos mp 0).map (· == k)) (takeD a mp d))
+
+/-- `GroupPopulation.value_nth_person(n, array, default)` -/
+def valueNth {α} (p : Pop) (k : Nat) (a : List α) (d : α) : Except String (List α) :=
+  valueNthWith p (orderedMap p.ids) k a d
 
 /-- `GroupPopulation.value_from_first_person` -/
 def valueFromFirst {α} (p : Pop) (a : List α) (zero : α) : Except String (List α) :=
@@ -222,15 +228,19 @@ def groupMin (p : Pop) (a : List Int) (role : Option Role) : Except String (List
 def groupMax (p : Pop) (a : List Int) (role : Option Role) : Except String (List EInt) :=
   reduce p (a.map .fin) EInt.max .negInf role
 
-/-- `GroupPopulation.value_from_person(array, role, default)` -/
-def valueFromPerson {α} (p : Pop) (a : List α) (r : Role) (d : α) : Except String (List α) :=
+/-- `GroupPopulation.value_from_person(array, role, default)`, the members map being given -/
+def valueFromPersonWith {α} (p : Pop) (mp : List Nat) (a : List α) (r : Role) (d : α) :
+    Except String (List α) :=
   if r.max ≠ some 1 then .error "role is not unique" else
   if a.length ≠ p.ms.length then .error "InvalidArraySizeError" else
-  let mp := orderedMap p.ids
   match groupAny p (p.hasRole r) none with
   | .error x => .error x
   | .ok ef =>
     maskedAssign (List.replicate p.n d) ef (maskSel (takeD (p.hasRole r) mp false) (takeD a mp d))
+
+/-- `GroupPopulation.value_from_person(array, role, default)` -/
+def valueFromPerson {α} (p : Pop) (a : List α) (r : Role) (d : α) : Except String (List α) :=
+  valueFromPersonWith p (orderedMap p.ids) a r d
 
 /-! ## Projection group -> persons -/
 
@@ -342,5 +352,10 @@ def roleOk (role : Option Role) (m : Member) : Bool :=
 storage order: a filter on the membership list -/
 def valuesOf {α} (p : Pop) (role : Option Role) (g : Nat) (a : List α) : List α :=
   ((p.ms.zip a).filter (fun ma => ma.1.group == g && roleOk role ma.1)).map (·.2)
+
+/-- `mp` is a permutation of the person indices that sorts them by group: what
+`numpy.argsort(members_entity_id)` returns, whatever the order among the members of one group -/
+def SortsByGroup (ids mp : List Nat) : Prop :=
+  mp.Perm (List.range ids.length) ∧ mp.Pairwise (fun i j => ids.getD i 0 ≤ ids.getD j 0)
 
 end OFCore.Grp
